@@ -51,6 +51,11 @@ def static_cases(ctx):
             t0 = 1700000000123456789
             edges = [t0 + e * 10 ** 9 for e in range(ne)]
             keys = [rng.choice(edges) + rng.choice([-1, 0, 1, -100, 100, 5 * 10 ** 8]) for _ in range(n)]
+        if rng.random() < 0.15:
+            # the same bins in other units (nanoseconds given in seconds, …): widths far below any absolute tolerance
+            sc = rng.choice([1e-9, 1e-12, 1e-7])
+            edges = [e * sc for e in edges]
+            keys = [k * sc for k in keys]
         narrow = None
         if rng.random() < 0.15:
             # keys and edges of different float widths: the comparison is that of the exact values (float32 0.7 is 0.699999988…,
@@ -135,6 +140,42 @@ def static_cases(ctx):
             ctx.disagree('binsorter-model-correspondence', case, dict(inner=bins, under=under, over=over), ml)
 
 
+def reentrant_key_cases(ctx):
+    """a key function may itself feed sub-records into the same sorter (a record that carries a batch): every observation is binned and counted"""
+    A = acclib.accmod()
+    rng = ctx.rng
+    for _ in range(ctx.scale(6, 40)):
+        edges = [0.0, 1.0, 2.0, 3.0]
+        records = []
+        for _ in range(rng.randint(2, 8)):
+            k = rng.choice([-0.5, 0.2, 1.0, 1.7, 2.9, 3.0, 4.2])
+            subs = [rng.choice([-0.5, 0.2, 1.0, 1.7, 2.9, 3.0]) for _ in range(rng.choice([0, 0, 1, 3]))]
+            records.append((k, subs))
+        holder = []
+
+        def key(rec):
+            for sk in rec[1]:
+                holder[0].accumulate((sk, []))
+            return rec[0]
+        bs = A.BinSorter(edges, A.Counter, key=key, datakey=lambda r: None)
+        holder.append(bs)
+        case = dict(reentrant_key=True, edges=edges, records=records)
+        ctx.case(('reentrant-key', str(records)), any(r[1] for r in records), sample=case)
+        ctx.count('reentrant_key')
+        try:
+            for r in records:
+                bs.accumulate(r)
+            e, h = bs.histogram
+        except Exception as ex:  # noqa
+            ctx.fail('binsorter-raises', 'a key function that feeds the same sorter raised %r' % (ex,), case)
+            continue
+        allkeys = [r[0] for r in records] + [sk for r in records for sk in r[1]]
+        want = [sum(1 for k in allkeys if edges[b] <= k < edges[b + 1]) for b in range(3)]
+        if list(h) != want or bs.n != len(allkeys):
+            ctx.fail('binsorter-counts-not-conserved', '%d observations were made (records and the sub-records their key function fed in); '
+                     'histogram %s (expected %s), n=%s' % (len(allkeys), list(h), want, bs.n), case)
+
+
 def dynamic_cases(ctx):
     A = acclib.accmod()
     rng = ctx.rng
@@ -204,6 +245,7 @@ def dynamic_cases(ctx):
 
 
 def check(ctx):
+    reentrant_key_cases(ctx)
     static_cases(ctx)
     dynamic_cases(ctx)
 
